@@ -2,7 +2,7 @@
    sound folding, display round trip.  Statements only; proofs are in Proofs/Expr*.v. *)
 From Coq Require Import ZArith NArith List Bool Reals Lia Lra.
 From SV Require Import Base.Num Base.Outcome Base.Str Model.Expr Model.RefExpr
-  Proofs.ExprTotal Proofs.ExprFold Proofs.ExprRead Proofs.ExprReadJuxt Proofs.ExprDisplay Proofs.ExprExamples.
+  Proofs.ExprTotal Proofs.ExprFold Proofs.ExprRead Proofs.ExprReadJuxt Proofs.ExprDisplay Proofs.ExprRoundTrip Proofs.ExprExamples.
 Import ListNotations.
 
 (* 1. TOTALITY, for every number type (so for reals and for f64): the lexer, parse_expr given
@@ -99,24 +99,52 @@ Example c19_zero_power_fold :
   /\ fold_operations (EBin OCaret (ENum 0%R) (ENum 0%R) false) = Ok (ENum 1%R).
 Proof. exact Proofs.ExprExamples.zero_power_fold. Qed.
 
-(* 4. DISPLAY ROUND TRIP (partial).  [dfrag e] (Proofs/ExprDisplay.v): e is built from one-letter variables
-   other than e / E, the four constants, + - * / % ^, postfix ! and prefix minus; the right operand of an operator
-   is an atom, a factorial, a paren-flagged binary operation or a prefix minus of one of these; the left operand
-   the same without prefix minus — except for ^ and for the operand of !, where Display puts the prefix minus in
-   parentheses; the tree itself may in addition be one binary operation without paren flag.  No number occurs.
-   Such trees are in the parser's image, and lexer, parser and fold of the printed text give back the very same
-   tree, for every number type and every rendering of numbers.
-   MISSING for the full statement: numbers (needs the specification of `{}` on f64) and with them the
-   juxtaposition shortcuts of Display (2x, x^2, 2x^2); functions; operands left unparenthesised by precedence
-   (a + b * c) — where the round trip is in fact FALSE on the current tree for products bound by juxtaposition
-   (x/yz prints as x / y * z: known finding F16j) and for two residual classes (F16e, F16f in
-   known_findings.d/C19.json). *)
-Theorem c19_display_roundtrip_partial : forall (T : Type) (NT : Num T) (fmt : T -> str) (e : expr T),
+(* 4. DISPLAY ROUND TRIP.  Display is Expr::render, the inverse of parse_expr (precedence-aware).
+   (a) c19_display_roundtrip_partial — the parser's image, for text without digits: whatever the lexer and the
+   parser make of a digit-free text (variables, the constants, functions, prefix minus, postfix !,
+   + - * / % ^ and an explicit ·, juxtaposition of letters, any parentheses), the printed tree is accepted again
+   by lexer and parser and the tree read back has the SAME VALUE at every point, defined or not; the folded tree
+   returned by [parser] is that same tree.  Exact tree equality does not hold in general (the re-read tree carries
+   paren flags where render put parentheses; (-a)*b is printed -a * b and reads back as -(a*b)).
+   MISSING for the full statement (hence _partial): numbers — the specification of `{}` on f64 and the shorthand
+   forms 4x, 2π, 5x^2, x2, x^2 that depend on it; on numbers the round trip is measured by the check on every case
+   (value comparison by the oracle, text comparison with the model). *)
+Theorem c19_display_roundtrip_partial : forall (fmt : R -> str) (s : str) (ts : list (token R)) (e : expr R),
+  lexer s = Ok ts -> forallb not_tnum ts = true -> parse_unfolded ts = Ok e ->
+  (exists e', reread fmt e = Ok e' /\ forall rho, denote e' rho = denote e rho) /\ parser ts = Ok e.
+Proof. exact Proofs.ExprRoundTrip.c19_display_roundtrip_image_lemma. Qed.
+Check c19_display_roundtrip_partial : forall (fmt : R -> str) (s : str) (ts : list (token R)) (e : expr R),
+  lexer s = Ok ts -> forallb not_tnum ts = true -> parse_unfolded ts = Ok e ->
+  (exists e', reread fmt e = Ok e' /\ forall rho, denote e' rho = denote e rho) /\ parser ts = Ok e.
+Print Assumptions c19_display_roundtrip_partial.
+
+(* (b) the same for every number-free tree of that shape, with ANY paren flags (so also for trees that no text
+   produces): [wf e] = one-letter variables other than e / E, constants, functions, prefix minus, postfix !,
+   + - * / % ^ *)
+Theorem c19_display_roundtrip_trees : forall (fmt : R -> str) (e : expr R),
+  wf e = true -> exists e', reread fmt e = Ok e' /\ forall rho, denote e' rho = denote e rho.
+Proof. exact Proofs.ExprRoundTrip.c19_display_roundtrip_lemma. Qed.
+Check c19_display_roundtrip_trees : forall (fmt : R -> str) (e : expr R),
+  wf e = true -> exists e', reread fmt e = Ok e' /\ forall rho, denote e' rho = denote e rho.
+Print Assumptions c19_display_roundtrip_trees.
+
+(* (c) where the tree is fully parenthesised below its top operator ([dfrag], Proofs/ExprDisplay.v) the very same
+   tree comes back, for every number type *)
+Theorem c19_display_roundtrip_exact : forall (T : Type) (NT : Num T) (fmt : T -> str) (e : expr T),
   dfrag e = true -> @reread T NT fmt e = Ok e.
 Proof. exact (@Proofs.ExprDisplay.c19_display_roundtrip_partial_lemma). Qed.
-Check c19_display_roundtrip_partial : forall (T : Type) (NT : Num T) (fmt : T -> str) (e : expr T),
+Check c19_display_roundtrip_exact : forall (T : Type) (NT : Num T) (fmt : T -> str) (e : expr T),
   dfrag e = true -> @reread T NT fmt e = Ok e.
-Print Assumptions c19_display_roundtrip_partial.
+Print Assumptions c19_display_roundtrip_exact.
+
+(* non-vacuity and the former finding F16j: x/yz is parsed as x/(y*z), printed with the parentheses it needs,
+   and accepted again; likewise a/(-b*c) *)
+Example c19_roundtrip_juxtaposition : forall fmt : R -> str,
+  let e := EBin ODiv ex (EBin OMul ey ez false) false in
+  lexer [120; 47; 121; 122]%N = Ok [tx; TOp ODiv; ty; tz] /\ parse_unfolded [tx; TOp ODiv; ty; tz] = Ok e /\
+  display fmt e = [120; 32; 47; 32; 40; 121; 32; 42; 32; 122; 41]%N /\
+  reread fmt e = Ok (EBin ODiv ex (EBin OMul ey ez true) false).
+Proof. intros fmt. cbn zeta. repeat split; reflexivity. Qed.
 
 (* the former counterexamples: (-x)^y, (-x)!, the constants, and (0 + x*y)^z through the fold *)
 Example c19_display_prefix_and_constants : forall fmt : R -> str,
